@@ -11,6 +11,12 @@ ops (JSON lists):
   ["mut", i, c, tok]             v = a[i]; v[c] = x      (k = 1:  v = a[i]; v += x — rebinding only)
   ["append"] ["extl", n] ["extc", m] ["exts"]     container.append / += list / += other container / += itself
   ["clear"] ["arr"]              a.clear() / a.as_array(len(container))
+  ["hold", i]                    h = a[i]; the object stays alive in a handle register (read result observed)
+  ["muth", h, c, tok]            held[h][c] = x      in-place update of a value read EARLIER (stale handle) or of a vector
+                                 the caller wrote (see setsh)
+  ["setfr", i, j]                a[j] = a[i]         (write-side aliasing: the object obtained by reading i is offered to j)
+  ["setsh", val, [keys]]         w = Vec(val); for key in keys: a[key] = w      (one caller object written under several keys;
+                                 w is registered as a handle so that the caller can update it in place afterwards)
 scalar tokens: b:0|1  i:<int>  f:<p/q>  c:<p/q>,<p/q>  s:<chars>   optional suffix @<numpy type name>
 """
 import ast, itertools, os
@@ -24,6 +30,9 @@ LEAN_MODULES = ["Mouette.Props.C05"]
 REQUIRED_THEOREMS = [
     "cast_lattice", "gen_canCast_eq", "gen_oobGuard_exact", "gen_zero_eq", "type_table_functional",
     "dense_refines", "sparse_refines", "sparse_dense_agree", "growth_aligned", "read_isolated",
+    # round 2: handles that stay alive, write-side aliasing
+    "dense_refines_ext", "sparse_refines_ext", "sparse_dense_agree_ext", "read_isolated_ext", "read_isolated_after_writes",
+    "caller_vector_isolated", "dense_handle_stale_after_growth", "checkVal_idem", "sparse_dense_agree_ext_eq",
 ]
 TRUSTED = [
     "Lean 4.33.0 kernel; axioms ⊆ {propext, Classical.choice, Quot.sound}",
@@ -32,7 +41,8 @@ TRUSTED = [
     "translator vlib/props/c05.py: cast pairs, Type multi-value table, default values, dense bounds guard, "
     "textual identity of the two __setitem__ bodies are read from the source with Python ast",
     "values are compared after widening to the attribute's type (True == 1 == 1.0 in Python); numpy view/copy rules are "
-    "observed from outside (reads followed by in-place item assignment)",
+    "observed from outside (reads followed by in-place item assignment, also through read results kept alive across later "
+    "writes / growth / clear, and through vectors the caller wrote)",
     "the entry a read value was obtained from is unconstrained after an in-place update of that value (masked '?') until "
     "it is written again or the attribute is cleared: the statement only constrains the OTHER entries",
 ]
@@ -43,7 +53,8 @@ ASSUMPTIONS = [
     "strings shorter than 32 characters (dense dtype <U32), integers within int64, floats dyadic (exact in binary64/32)",
     "a scalar str is never offered to a vector attribute (Python would iterate its characters)",
 ]
-RULE = ("random scripts (length <= 14 quick / <= 60 thorough) over 5 types x arity 1-3 x {implicit, custom default}, the same "
+RULE = ("[round 2: plus reads kept alive and updated in place later (hold/muth), a[j] = a[i] (setfr), one caller vector written "
+        "under several keys and updated by the caller afterwards (setsh)] random scripts (length <= 14 quick / <= 60 thorough) over 5 types x arity 1-3 x {implicit, custom default}, the same "
         "script replayed on sparse and dense storage and on the model; indices size, size+1, -1 and reads followed by in-place "
         "updates are weighted in; values: exact type, widening, non-castable, wrong arity, heterogeneous vectors, numpy scalar "
         "types; non-trivial = distinct script with an attribute alive, >= 1 accepted write and >= 1 read/export after it; "
@@ -146,6 +157,7 @@ class _Run:
             self.c.append(j)
         self.dense = dense
         self.ty = None; self.k = None
+        self.held = []        # objects obtained by reads / vectors owned by the caller (None: immutable scalar)
         self.by = self.c.create_attribute("bystander", int, 2, dense=True) if bystander else None
 
     def attr(self):
@@ -175,7 +187,39 @@ class _Run:
                 c += o; return "-"
             if kind == "exts":
                 c += c; return "-"
+            if kind == "muth":
+                if op[1] >= len(self.held): return "err:Index"
+                v = self.held[op[1]]
+                if v is None: return "-"
+                try:
+                    v[op[2]] = tok_value(op[3])
+                except (OverflowError, TypeError, ValueError):
+                    pass
+                return "-"
             a = self.attr()
+            if kind == "hold":
+                import numpy as np
+                v = a[op[1]]
+                self.held.append(v if isinstance(v, np.ndarray) and v.ndim >= 1 else None)
+                return canon_read(self.ty, v)
+            if kind == "setfr":
+                a[op[2]] = a[op[1]]; return "-"
+            if kind == "setsh":
+                import numpy as np
+                import mouette as M
+                v = op[1]
+                if v[0] == "S":
+                    w = tok_value(v[1]); self.held.append(None)
+                else:
+                    comps = [tok_value(t) for t in v[1]]
+                    if all(tok_type(t) == self.ty for t in v[1]) and comps:
+                        w = M.Vec(np.array(comps, dtype=a.type.dtype))     # a Vec of exactly the attribute's dtype and shape
+                    else:
+                        w = M.Vec(comps)
+                    self.held.append(w)
+                for key in op[2]:
+                    a[key] = w
+                return "-"
             if kind == "set":
                 v = op[2]
                 a[op[1]] = tok_value(v[1]) if v[0] == "S" else [tok_value(t) for t in v[1]]
@@ -225,9 +269,30 @@ def mask(case, recs):
     written again / the attribute is cleared or re-created."""
     taint, out = set(), []
     cur_k = 1
+    origin = []           # per registered handle: the entry it was read from (None: caller object / scalar / invalidated)
     for op, rec in zip(case["ops"], recs):
         obs, size, ln = rec.rsplit(";", 2)
         kind = op[0]
+        if kind == "hold" and op[1] in taint and not obs.startswith("err"):
+            origin.append(op[1] if obs.startswith("V ") else None); obs = "?"
+        elif kind == "hold" and not obs.startswith("err"):
+            origin.append(op[1] if obs.startswith("V ") else None)
+        if kind == "setsh" and obs != "err:Other(Exception)":
+            origin.append(None)
+        if kind == "muth" and obs == "-" and op[1] < len(origin) and origin[op[1]] is not None:
+            taint.add(origin[op[1]])
+        if kind == "setfr" and obs == "-":
+            (taint.add if op[1] in taint else taint.discard)(op[2])
+        if kind == "setsh":
+            written = op[2] if obs == "-" else []
+            if obs == "err:OutOfBounds" and size.isdigit():
+                written = []
+                for key in op[2]:
+                    if not (0 <= key < int(size)): break
+                    written.append(key)
+            for key in written: taint.discard(key)
+        if kind in ("clear", "create", "delete", "cclear") and obs == "-":
+            origin = [None] * len(origin)
         if kind == "get" and op[1] in taint and not obs.startswith("err"):
             obs = "?"
         if kind == "arr" and obs.startswith("A ") and taint:
@@ -270,6 +335,7 @@ def _str_scalar_on_vector(case):
         if op[0] == "create" and (op[3] is None or tok_type(op[3]) == op[1]): k = op[2]
         elif op[0] in ("delete", "cclear"): k = None
         elif op[0] == "set" and k is not None and k > 1 and op[2][0] == "S" and op[2][1].startswith("s:"): return True
+        elif op[0] == "setsh" and k is not None and k > 1 and op[1][0] == "S" and op[1][1].startswith("s:"): return True
     return False
 
 
@@ -285,6 +351,13 @@ def model_request(case):
             v = op[2]
             toks += ["set", str(op[1])] + (["S", _tok_req(v[1])] if v[0] == "S" else ["V", str(len(v[1]))] + [_tok_req(t) for t in v[1]])
         elif k == "get": toks += ["get", str(op[1])]
+        elif k == "hold": toks += ["hold", str(op[1])]
+        elif k == "muth": toks += ["muth", str(op[1]), str(op[2]), _tok_req(op[3])]
+        elif k == "setfr": toks += ["setfr", str(op[1]), str(op[2])]
+        elif k == "setsh":
+            v = op[1]
+            toks += ["setsh"] + (["S", _tok_req(v[1])] if v[0] == "S" else ["V", str(len(v[1]))] + [_tok_req(t) for t in v[1]])
+            toks += [str(len(op[2]))] + [str(key) for key in op[2]]
         elif k == "mut": toks += ["mut", str(op[1]), str(op[2]), _tok_req(op[3])]
         elif k in ("extl", "extc"): toks += [k, str(op[1])]
         else: toks += [k]
@@ -336,7 +409,7 @@ def _oracle_mode(case, dense):
         # structural key: which clause of the statement fails (not which operation happened to reveal it)
         if what.endswith("-shape-reads-wrong"): cat = "unset-vector-entry-reads-scalar"
         elif opk == "oob": cat = f"oob/{what}"
-        elif opk == "mut": cat = f"read-isolated/{what}"
+        elif opk in ("mut", "muth"): cat = f"read-isolated/{what}"
         elif opk in ("append", "extl", "extc", "exts"): cat = f"growth/{opk}/{what}"
         elif opk == "set" and what.startswith(("accepts", "rejects")): cat = f"set/{what}"
         else: cat = f"total-map/{opk}/{what}"
@@ -384,11 +457,32 @@ def _oracle_mode(case, dense):
                 F(opk, "as_array-row-wrong", f"step {step}: row {i} = {rows[i]}, expected {expect_row(i)}"); return False
         return True
 
+    origin = []           # per registered handle: entry it was read from (None: caller object / scalar / invalidated)
     for step, op in enumerate(case["ops"]):
         kind = op[0]
-        in_range = kind in ("set", "get", "mut") and 0 <= op[1] < size
-        if kind in ("set", "get", "mut") and alive and not in_range:
+        idxs = {"set": lambda: [op[1]], "get": lambda: [op[1]], "mut": lambda: [op[1]], "hold": lambda: [op[1]],
+                "setfr": lambda: [op[1], op[2]], "setsh": lambda: list(op[2])}.get(kind, lambda: [])()
+        in_range = all(0 <= i < size for i in idxs)
+        if kind == "setsh" and alive and dense and not in_range:
+            # dense: keys are written in order; the first key outside the container must be reported as out of bounds
+            obs = r.do(op); origin.append(None)
+            acc, why = _expect_accept(ty, k, op[1])
+            first_oor = next(j for j, key in enumerate(op[2]) if not 0 <= key < size)
+            if acc or first_oor == 0:
+                if obs != "err:OutOfBounds":
+                    F("oob", "setsh", f"step {step}: {op} on a container of {size}: {obs} instead of OutOfBoundsError"); return out
+                if acc:
+                    for key in op[2][:first_oor]:
+                        ref[key] = [tok_canon(ty, op[1][1])] if op[1][0] == "S" else [tok_canon(ty, t) for t in op[1][1]]
+                        taint.discard(key)
+            elif not obs.startswith("err"):
+                F("set", f"accepts/{why}", f"step {step}: {op}"); return out
+            if not check_state(kind, step): return out
+            continue
+        if idxs and alive and not in_range:
             if not dense:
+                if kind in ("hold", "setsh"):
+                    r.held.append(None); origin.append(None)
                 continue         # sparse storage outside the container: not constrained by the statement
             obs = r.do(op)
             if obs != "err:OutOfBounds":
@@ -410,18 +504,21 @@ def _oracle_mode(case, dense):
                 alive, ty, k = True, op[1], op[2]
                 dflt = [tok_canon(ty, d if d is not None else {"bool": "b:0", "int": "i:0", "float": "f:0", "complex": "c:0,0", "str": "s:"}[ty])] * k
                 ref, taint = {}, set()
+                origin = [None] * len(origin)
         elif kind == "delete":
             if failed: F("delete", f"raises({obs})", f"step {step}"); return out
             alive = False
+            origin = [None] * len(origin)
         elif kind == "cclear":
             if failed: F("cclear", f"raises({obs})", f"step {step}"); return out
             alive, size = False, 0
+            origin = [None] * len(origin)
             r.by = r.c.create_attribute("bystander", int, 2, dense=True)
         elif kind in ("append", "extl", "extc", "exts"):
             if failed:
                 F(kind, f"raises({obs})", f"step {step}: container of {size} elements"); return out
             size += {"append": 1, "extl": op[1] if kind == "extl" else 0, "extc": op[1] if kind == "extc" else 0, "exts": size}[kind]
-        elif not alive:
+        elif not alive and kind != "muth":
             if not failed:
                 F(kind, "absent-attribute-answers", f"step {step}"); return out
         elif kind == "set":
@@ -439,9 +536,37 @@ def _oracle_mode(case, dense):
         elif kind == "mut":
             if k > 1:
                 taint.add(op[1])
+        elif kind == "muth":
+            if not failed and op[1] < len(origin) and origin[op[1]] is not None:
+                taint.add(origin[op[1]])
+        elif kind == "hold":
+            if failed:
+                F("get", f"raises({obs})", f"step {step}: a[{op[1]}], size {size}"); return out
+            origin.append(op[1] if k > 1 else None)
+        elif kind == "setfr":
+            if op[1] in taint:
+                taint.add(op[2])         # the value copied is itself unconstrained
+            elif failed:
+                F("set", "rejects/own-read-value", f"step {step}: a[{op[2]}] = a[{op[1]}] on a {ty} attribute of arity {k} -> {obs}"); return out
+            else:
+                if op[1] in ref: ref[op[2]] = list(ref[op[1]])
+                else: ref.pop(op[2], None)
+                taint.discard(op[2])
+        elif kind == "setsh":
+            origin.append(None)
+            acc, why = _expect_accept(ty, k, op[1])
+            if acc and failed:
+                F("set", f"rejects/{tok_type(op[1][1] if op[1][0] == 'S' else op[1][1][0])}->{ty}", f"step {step}: {op} -> {obs}"); return out
+            if not acc and not failed and op[2]:
+                F("set", f"accepts/{why}", f"step {step}: {op} accepted by a {ty} attribute of arity {k}"); return out
+            if acc:
+                for key in op[2]:
+                    ref[key] = [tok_canon(ty, op[1][1])] if op[1][0] == "S" else [tok_canon(ty, t) for t in op[1][1]]
+                    taint.discard(key)
         elif kind == "clear":
             if failed: F("clear", f"raises({obs})", f"step {step}"); return out
             ref, taint = {}, set()
+            origin = [None] * len(origin)
         elif kind == "arr":
             if failed:
                 F("arr", f"raises({obs})", f"step {step}"); return out
@@ -523,6 +648,7 @@ def _script(rng, maxlen):
         if d is None or tok_type(d) == ty_ or ty is None:
             ty, k = ty_, k_          # (a default of another type is rejected: the previous attribute stays)
     alive = False
+    nh = 0
     if rng.random() < 0.94: create(); alive = True
     L = rng.randint(3, maxlen)
     while len(ops) < L:
@@ -531,6 +657,32 @@ def _script(rng, maxlen):
             create(); alive = True; continue
         if ty is None:
             ty, k = "float", 1     # script without create: ops hit the absent attribute
+        if r < 0.18:
+            # reads kept alive, stale in-place updates, write-side aliasing
+            if r < 0.05: ops.append(["hold", _index(rng, size)]); nh += 1
+            elif r < 0.10:
+                if nh: ops.append(["muth", rng.randrange(nh) if rng.random() < 0.95 else nh, rng.randrange(max(k, 1)) if rng.random() < 0.95 else k, _scalar(rng, ty, numpy_ok=False)])
+                else: ops.append(["hold", _index(rng, size)]); nh += 1
+            elif r < 0.14:
+                i, j = _index(rng, size), _index(rng, size)
+                if size > 0 and rng.random() < 0.6: i, j = rng.randrange(size), rng.randrange(size)
+                ops.append(["setfr", i, j])
+                if size > 0 and rng.random() < 0.5:      # ... followed by an in-place update of what entry i reads
+                    ops.append(["mut", i, rng.randrange(max(k, 1)), _scalar(rng, ty, numpy_ok=False)])
+            else:
+                v = _value(rng, ty, k)
+                if v[0] == "S" and v[1].startswith("s:") and k > 1: v = ["V", [_scalar(rng, ty) for _ in range(k)]]
+                if v[0] == "V" and len({tok_type(t) for t in v[1]}) > 1:
+                    # a Vec is homogeneous: numpy would coerce a mixed list before the library sees it
+                    v = ["V", [_scalar(rng, tok_type(v[1][0])) for _ in v[1]]]
+                keys = [_index(rng, size) for _ in range(rng.randint(1, 3))]
+                if size > 0 and rng.random() < 0.6: keys = [rng.randrange(size) for _ in keys]
+                ops.append(["setsh", v, keys]); nh += 1
+                if rng.random() < 0.5:                    # ... the caller then updates its own vector / what one key reads
+                    if rng.random() < 0.5: ops.append(["muth", nh - 1, rng.randrange(max(k, 1)), _scalar(rng, ty, numpy_ok=False)])
+                    else: ops.append(["mut", keys[0], rng.randrange(max(k, 1)), _scalar(rng, ty, numpy_ok=False)])
+            continue
+        r = (r - 0.18) / 0.82
         if r < 0.30: ops.append(["set", _index(rng, size), _value(rng, ty, k)])
         elif r < 0.45: ops.append(["get", _index(rng, size)])
         elif r < 0.57: ops.append(["mut", _index(rng, size), rng.randrange(max(k, 1)) if rng.random() < 0.95 else k, _scalar(rng, ty, numpy_ok=False)])
@@ -555,6 +707,12 @@ def _alphabet():
             ["append"], ["extl", 2], ["exts"], ["clear"], ["arr"], ["delete"]]
 
 
+def _alphabet2():
+    return [["set", 0, ["V", ["f:1/2", "i:2"]]], ["set", 1, ["V", ["f:3", "f:-1/4"]]], ["get", 2], ["mut", 0, 1, "f:7"],
+            ["hold", 0], ["hold", 1], ["muth", 0, 1, "f:9"], ["setfr", 0, 1], ["setsh", ["V", ["f:2", "f:2"]], [0, 1]],
+            ["append"], ["clear"], ["arr"]]
+
+
 def cases(rng, tier):
     n, maxlen = (3000, 14) if tier == "quick" else (12000, 60)
     for _ in range(n):
@@ -568,6 +726,10 @@ def cases(rng, tier):
                 if d is not None and L == 4: continue
                 for seq in itertools.product(alpha, repeat=L):
                     yield {"n0": 2, "ops": head + [list(o) for o in seq]}
+        # handles / write-side aliasing: every script of length <= 4 over a 12-letter alphabet (a TEST)
+        for L in range(1, 5):
+            for seq in itertools.product(_alphabet2(), repeat=L):
+                yield {"n0": 2, "ops": [["create", "float", 2, None]] + [list(o) for o in seq]}
 
 
 def search_on_break(rng, broken, mismatches):
@@ -580,8 +742,8 @@ def nontrivial(case, obs):
     wrote = False
     for op, rec in zip(case["ops"], recs):
         o = rec.rsplit(";", 2)[0]
-        if op[0] == "set" and o == "-": wrote = True
-        if wrote and op[0] in ("get", "arr") and not o.startswith("err"): return True
+        if op[0] in ("set", "setfr", "setsh") and o == "-": wrote = True
+        if wrote and op[0] in ("get", "arr", "hold") and not o.startswith("err"): return True
     return False
 
 
